@@ -2,6 +2,7 @@ package core
 
 import (
 	"fmt"
+	"sort"
 
 	"github.com/jsightapi/jsight-api-go-library/directive"
 	"github.com/jsightapi/jsight-api-go-library/jerr"
@@ -38,8 +39,15 @@ func (core *JApiCore) compileCore() *jerr.JApiError {
 }
 
 func (core *JApiCore) checkMacroForRecursion() *jerr.JApiError {
-	for macroName, macro := range core.macro {
-		if je := core.findPaste(macroName, macro, map[string]struct{}{}); je != nil {
+	// In the order of the names, so that the same error is reported every time.
+	names := make([]string, 0, len(core.macro))
+	for macroName := range core.macro {
+		names = append(names, macroName)
+	}
+	sort.Strings(names)
+
+	for _, macroName := range names {
+		if je := core.findPaste(macroName, core.macro[macroName], map[string]struct{}{}); je != nil {
 			return je
 		}
 	}
